@@ -107,6 +107,8 @@ package absnfs
 //@ func NFSProcedureHandler.handleSetattr
 //@ prop C08
 //@ partial
+// C25: SETATTR never truncates (extends) a file to a size beyond MaxFileSize
+//@ callassert NFSNode.Truncate : [within-limit] {C25} curPolicy(h.server.handler).MaxFileSize > 0 ==> arg1 >= 0 && arg1 <= curPolicy(h.server.handler).MaxFileSize
 // C11: SETATTR's uid and gid are ignored for a caller that is not root (the attributes handed on keep the node's)
 //@ callassert AbsfsNFS.SetAttr : [ids-ignored-unless-root] {C11} authCtx.EffectiveUID != 0 ==> node.attrs != nil && attrs.Uid == node.attrs.Uid && attrs.Gid == node.attrs.Gid
 //@ ensures [ro-refused] old(curPolicy(h.server.handler).ReadOnly) ==> result0 == reply && replyIsBytes(reply) && replyStatus(reply) != 0
@@ -208,6 +210,10 @@ package absnfs
 //@ prop C08
 //@ partial
 //@ requires s != nil && curTuning(s) != nil && curPolicy(s) != nil
+// C25: with a positive MaxFileSize nothing is written beyond it, and a write that would go beyond it fails
+// before the backend is touched
+//@ callassert absfs.File.WriteAt : [within-limit] {C25} curPolicy(s).MaxFileSize > 0 ==> arg2 >= 0 && arg2 + len(arg1) <= curPolicy(s).MaxFileSize
+//@ ensures [too-big-refused] {C25} old(curPolicy(s).MaxFileSize) > 0 && node != nil && data != nil && offset >= 0 && offset + min(len(data), old(curTuning(s).TransferSize)) > old(curPolicy(s).MaxFileSize) ==> !isnil(result1) && result0 == 0 && mutlog == old(mutlog)
 //@ ensures [ro-refused] old(curPolicy(s).ReadOnly) ==> mutlog == old(mutlog) && !isnil(result1)
 //@ func AbsfsNFS.Write
 //@ prop C08
